@@ -296,7 +296,14 @@ impl<'r> Gen<'r> {
             0 => Form::Word,
             1 | 2 => Form::NV(Value::Raw(self.rng.pick(&INTS).to_string())),
             3 => Form::NV(Value::Raw(self.rng.pick(&FLOATS).to_string())),
-            4 | 5 | 6 => Form::NV(Value::Str(self.rng.pick(&STRS).to_string())),
+            4 | 5 => Form::NV(Value::Str(self.rng.pick(&STRS).to_string())),
+            6 => {
+                if self.rng.pct(60) {
+                    Form::NV(Value::Str(self.rng.pick(&STRS).to_string()))
+                } else {
+                    Form::NV(Value::Str(self.long_string()))
+                }
+            }
             7 | 8 => Form::NV(Value::Raw(self.rng.pick(&EXPRS).to_string())),
             9 => Form::NV(Value::Bool(self.rng.pct(50))),
             10 => {
@@ -329,13 +336,36 @@ impl<'r> Gen<'r> {
         }
     }
 
+    /// A string of a chosen byte length (around the usual buffer / truncation thresholds) made of
+    /// one- to four-byte characters, so that any byte offset may fall inside a character.
+    fn long_string(&mut self) -> String {
+        const UNITS: [&str; 12] = ["a", "b", " ", ":", "<", "1", "_", "\u{e9}", "\u{20ac}", "\u{1f600}", "::", ", "];
+        let target = *self.rng.pick(&[1usize, 15, 16, 31, 32, 63, 64, 100, 119, 120, 121, 127, 128, 129, 255, 256, 257, 1000, 4096]) + self.rng.below(4);
+        let mut out = String::new();
+        // optionally a sensible prefix, so the text is "almost" valid syntax
+        if self.rng.pct(40) {
+            let prefix: &str = *self.rng.pick(&["a::b::", "Vec<", "where T: ", "[1, 2, ", "pub(", "|x| "]);
+            out.push_str(prefix);
+        }
+        while out.len() < target {
+            let u = *self.rng.pick(&UNITS);
+            out.push_str(u);
+        }
+        out
+    }
+
     fn junk_nested_lits(&mut self) -> Vec<Nested> {
         let n = self.rng.below(3);
         (0..n).map(|i| Nested::Lit { text: format!("{}", i + 1), range: ZERO }).collect()
     }
 
     fn map_items(&mut self, key: &KeyKind, val: &Ty, depth: usize) -> Vec<Nested> {
-        let n = self.rng.below(7);
+        // mostly short lists; sometimes up to the 12 the property speaks of, rarely far beyond
+        let n = match self.rng.below(20) {
+            0..=13 => self.rng.below(7),
+            14..=18 => self.rng.range(7, 12),
+            _ => self.rng.range(13, 40),
+        };
         let pool = self.rng.range(1, KEY_POOL.len());
         let mut out = Vec::new();
         for _ in 0..n {
@@ -515,7 +545,11 @@ impl<'r> Gen<'r> {
             };
             let count = if fd.multiple {
                 if present {
-                    self.rng.range(1, 3)
+                    if self.rng.pct(5) {
+                        self.rng.range(4, 20)
+                    } else {
+                        self.rng.range(1, 3)
+                    }
                 } else {
                     0
                 }
